@@ -2,7 +2,7 @@
 
 program = {
   'cfg':  {'msg': bool, 'frag': [client|None, server|None], 'rbuf': [c, s], 'ka': seconds, 'life': seconds,
-           'lease': {...}|None, 'idmask': int|None, 'none_empty': bool},
+           'lease': {...}|None, 'idmask': int|None, 'none_empty': bool, 'write_delay': [c_seconds, s_seconds] (slow link)},
   'inter': [interaction spec, ...]      (started by 'start' ops, in order)
   'ops':  [[op, args...], ...]
   'heal': bool (default True)
@@ -22,7 +22,7 @@ from datetime import timedelta
 
 from harness import app as A
 from harness import simnet
-from harness.common import HarnessError, CaseTimeout
+from harness.common import HarnessError, CaseTimeout, repo_exception_sig
 from harness.vloop import run_case, patch_datetime
 
 MAXN = 0x7FFFFFFF
@@ -82,7 +82,7 @@ class RawPeer:
             self.eof = True
             self.world.ev(self.side, 'raw_eof')
 
-    def feed_error(self):
+    def feed_error(self, mode="error"):
         self.error = True
         self.world.ev(self.side, 'raw_error')
 
@@ -407,7 +407,11 @@ def _scn_methods():
                 req.initial_request_n(sub.n0)
                 sub.requested = sub.n0
                 world.ev(side, 'initial_n', uid=uid, dir='resp', n=sub.n0)
-                req.subscribe(sub)
+                if spec.get('late_subscribe'):
+                    st['deferred'] = (req, sub)  # a cold publisher: created (and registered) now, subscribed later or never
+                    world.ev(side, 'subscribe_deferred', uid=uid)
+                else:
+                    req.subscribe(sub)
             elif k == 'ch':
                 rsrc = spec.get('rsrc')
                 pub = self.make_source(uid, side, 'req', rsrc) if rsrc is not None else None
@@ -418,7 +422,11 @@ def _scn_methods():
                 req.initial_request_n(sub.n0)
                 sub.requested = sub.n0
                 world.ev(side, 'initial_n', uid=uid, dir='resp', n=sub.n0)
-                req.subscribe(sub)
+                if spec.get('late_subscribe'):
+                    st['deferred'] = (req, sub)
+                    world.ev(side, 'subscribe_deferred', uid=uid)
+                else:
+                    req.subscribe(sub)
             else:
                 raise HarnessError('unknown interaction kind %r' % k)
         except HarnessError:
@@ -624,6 +632,11 @@ async def _execute(loop, program, observe=None):
         c = simnet.Conn(world, message_mode=bool(cfg.get('msg')), read_buffer=tuple(cfg.get('rbuf', (1024, 1024))),
                         index=index)
         c.tag()
+        wd = cfg.get('write_delay')
+        if wd:
+            for sd, d in zip(('c', 's'), wd):
+                if d and sd in c.writer:
+                    c.writer[sd].delay = d
         conn.conns.append(c)
         c.set_auto(conn.auto)
         world.cur_cx = index
@@ -724,6 +737,15 @@ async def _execute(loop, program, observe=None):
             await simnet.run_until_quiet(loop, [conn])
         elif name == 'mark':
             world.ev('net', 'mark', name=op[1])
+        elif name == 'subscribe':
+            uid = started_uid(op[1])
+            if uid is not None and scn.st[uid].get('deferred'):
+                req, sub = scn.st[uid].pop('deferred')
+                world.ev(scn.st[uid]['spec']['side'], 'subscribe_late', uid=uid)
+                try:
+                    req.subscribe(sub)
+                except Exception as e:
+                    world.ev(scn.st[uid]['spec']['side'], 'issue_raised', uid=uid, exc=repr(e), exc_type=type(e).__name__)
         elif name == 'block':
             conn.block(op[1])
         elif name == 'unblock':
@@ -823,7 +845,13 @@ async def _execute(loop, program, observe=None):
         elif name == 'close':
             state['faulted'] = True
             world.ev(op[1], 'close_call')
-            await scn.sock[op[1]].close()
+            try:
+                await scn.sock[op[1]].close()
+            except Exception as e:
+                is_repo, sig = repo_exception_sig(e)
+                # close() let an exception out (for example the application's cancel() raising inside the sweep): the run goes
+                # on, what the aborted cleanup left behind is for the monitors to judge
+                world.ev(op[1], 'close_raised', exc=repr(e)[:200])
             world.ev(op[1], 'close_returned')
         else:
             raise HarnessError('unknown op %r' % (op,))
